@@ -69,6 +69,9 @@ def truthiness_guards( src, fn, art='data' ):
             field = try_fold( t.args[0] )
         elif isinstance( t, ast.Attribute ):
             field = t.attr
+        elif isinstance( t, ast.Name ) and t.id in [ a_.arg for a_ in fn.args.args + fn.args.kwonlyargs ]:
+            field = t.id			# a PARAMETER holding the value that is emitted ( `if structure_tag: UINT.produce( structure_tag )` ); a local
+            				# computed in the function may use 0 as its own "absent" mark ( EPATH.produce: pext )
         if field is None:
             continue
         for s_ in i.body:
